@@ -79,6 +79,8 @@ class ParallelAction : public AssembleAction {
 
     //! 暂停期间到达的子动作结果，恢复后重新处理
     std::vector<std::pair<int, bool>> held_child_results_;
+    //! 正在重放的结果；reset()/stop() 时一并丢弃
+    std::vector<std::pair<int, bool>> replaying_child_results_;
     event::Loop::RunId replay_run_id_ = 0;
 };
 
